@@ -348,6 +348,8 @@ class Program:
         return r[0] if r else None
 
     def const(self, suffix):
+        if suffix in self.consts:
+            return self.consts[suffix]
         r = [c for p, c in self.consts.items() if p == suffix or p.endswith("::" + suffix)]
         if len(r) != 1:
             raise AnchorError("anchor constant %r: %d matches in config %s" % (suffix, len(r), self.cfg))
